@@ -1,7 +1,7 @@
-(* C16: proofs about the queue programs (Model/QueueCode.v) under the interleaving
-   semantics of Model/QueueProg.v. *)
+(* C16: Gen = Model and the transport of the theorems of Proofs/QueueInvProofs.v to the
+   programs generated on this run. *)
 From Coq Require Import ZArith List Bool Lia ZifyBool Arith.
-From BV Require Import Model.SemProg Model.QueueProg Model.QueueCode Proofs.SemProgProofs.
+From BV Require Import Model.SemProg Model.QueueProg Model.QueueCode Proofs.SemProgProofs Proofs.QueueInvProofs.
 From BV Require Gen.P_queue.
 Import ListNotations.
 Open Scope Z_scope.
@@ -17,3 +17,130 @@ Proof. reflexivity. Qed.
 
 Lemma gen_feed_eq : P_queue.FEED = QueueCode.FEED.
 Proof. reflexivity. Qed.
+
+
+(* ================================================================== transport to the generated programs *)
+Definition gen_qworld (maxsize : Z) (nprocs : nat) : list sem := P_queue.queue_sems maxsize ++ proc_sems nprocs.
+
+Lemma gen_qworld_w : forall M n, gen_qworld M n = qworld M n.
+Proof. reflexivity. Qed.
+
+Definition gen_qinit (maxsize : Z) (scripts : list (list qcall)) : qsys :=
+  qinit_sys P_queue.code P_queue.FEED (gen_qworld maxsize (length scripts)) scripts.
+
+Lemma gen_qinit_eq : forall M scripts, gen_qinit M scripts = qinit M scripts.
+Proof.
+  intros. unfold gen_qinit, qinit. rewrite gen_qworld_w, gen_feed_eq.
+  apply qinit_sys_ext. apply gen_qcode_eq.
+Qed.
+
+Lemma gqstep : forall g i go, qstep P_queue.code g i go = qstep qcode g i go.
+Proof. apply qstep_ext. apply gen_qcode_eq. Qed.
+
+Lemma gqrun : forall sched g, qrun P_queue.code g sched = qrun qcode g sched.
+Proof. apply qrun_ext. apply gen_qcode_eq. Qed.
+
+Fixpoint gen_qrun_small (g : qsys) (sched : list (nat * bool)) : Prop :=
+  qsmall g /\
+  match sched with
+  | [] => True
+  | (i, go) :: r =>
+    match qstep P_queue.code g i go with Some (g1, _) => gen_qrun_small g1 r | None => True end
+  end.
+
+Lemma gen_qrun_small_eq : forall sched g, gen_qrun_small g sched -> qrun_small g sched.
+Proof.
+  induction sched as [|[i go] sched IH]; intros g H; cbn [gen_qrun_small qrun_small] in *; [auto|].
+  destruct H as [A B]. split; [auto|]. rewrite gqstep in B.
+  destruct (qstep qcode g i go) as [[g1 e]|]; auto.
+Qed.
+
+(* states reachable by the generated programs: any number of processes (each a main thread
+   running any script of put / get / task_done / join calls, plus its feeder thread), any
+   maxsize >= 0, any schedule; counters below SEM_VALUE_MAX *)
+Definition QReach (M : Z) (g : qsys) : Prop :=
+  exists scripts sched es ok,
+    0 <= M /\ Forall (Forall okq) scripts /\
+    gen_qrun_small (gen_qinit M scripts) sched /\
+    qrun P_queue.code (gen_qinit M scripts) sched = (g, es, ok).
+
+Theorem qreach_inv : forall M g, QReach M g -> QInv M g.
+Proof.
+  intros M g (scripts & sched & es & ok & HM & Hs & Hsm & Hrun).
+  rewrite gqrun, gen_qinit_eq in Hrun. rewrite gen_qinit_eq in Hsm.
+  eapply qinv_run; [apply qinv_init; eauto|apply gen_qrun_small_eq; eauto|eauto].
+Qed.
+
+Theorem G_queue_capacity : forall M g, QReach M g ->
+    qv 0 g + sumz blen (procs g) + Z.of_nat (length (pipe g)) + sumz qt_tr (qthr g) = M /\
+    0 <= qv 0 g /\
+    sumz blen (procs g) + Z.of_nat (length (pipe g)) <= M.
+Proof. intros M g HR. apply queue_capacity. apply qreach_inv; auto. Qed.
+
+Theorem G_queue_fifo : forall M g, QReach M g ->
+    (forall p, plog (nth p (procs g) dps) =
+               slog (nth p (procs g) dps) ++ ftr (nth (2 * p + 1) (qthr g) dqt) ++ buf (nth p (procs g) dps)) /\
+    sendlog g = getlog g ++ pipe g /\
+    (forall m, zcnt m (sendlog g) = sumz (fun ps => zcnt m (slog ps)) (procs g)).
+Proof. intros M g HR. apply (queue_fifo M). apply qreach_inv; auto. Qed.
+
+Theorem G_queue_no_loss_no_dup : forall M g m, QReach M g ->
+    sumz (fun ps => zcnt m (plog ps)) (procs g) =
+    zcnt m (getlog g) + zcnt m (pipe g)
+    + psum (fun p => zcnt m (ftr (nth (2 * p + 1) (qthr g) dqt))) (length (procs g))
+    + sumz (fun ps => zcnt m (buf ps)) (procs g).
+Proof. intros M g m HR. apply (queue_no_loss_no_dup M). apply qreach_inv; auto. Qed.
+
+Theorem G_queue_locks : forall M g, QReach M g ->
+    qv 1 g + sumz qt_rl (qthr g) = 1 /\ qv 2 g + sumz qt_wl (qthr g) = 1 /\
+    forall p, (p < length (procs g))%nat -> qv (nls p) g + sumz (qt_nl p) (qthr g) = 1.
+Proof. intros M g HR. apply (queue_locks M). apply qreach_inv; auto. Qed.
+
+Theorem G_queue_step : forall M g i go g' e, QReach M g -> qsmall g ->
+    qstep P_queue.code g i go = Some (g', e) -> QInv M g'.
+Proof. intros M g i go g' e HR Hsm H. rewrite gqstep in H. eapply qstep_inv; eauto. apply qreach_inv; auto. Qed.
+
+Theorem G_full_only_when_zero : forall M g i t g' e, QReach M g ->
+    nth_error (qthr g) i = Some t -> qfin t = false -> qfeeder t = false ->
+    (qcid t = 0%nat \/ qcid t = 3%nat) -> qpc t = 0%nat ->
+    qstep P_queue.code g i true = Some (g', e) ->
+    (snd e = 0 -> qv 0 g = 0) /\ (snd e = 1 -> 0 < qv 0 g).
+Proof.
+  intros M g i t g' e HR Ht Hf Hfd Hc Hp H. rewrite gqstep in H.
+  eapply (full_only_when_zero M); eauto. apply qreach_inv; auto.
+Qed.
+
+Theorem G_empty_only_when_nothing : forall g i t g' e,
+    nth_error (qthr g) i = Some t -> qfin t = false -> qfeeder t = false ->
+    qcid t = 1%nat -> qpc t = 17%nat ->
+    qstep P_queue.code g i true = Some (g', e) ->
+    (snd e = 0 <-> pipe g = []).
+Proof. intros g i t g' e Ht Hf Hfd Hc Hp H. rewrite gqstep in H. eapply empty_only_when_nothing; eauto. Qed.
+
+Theorem G_put_appends_its_argument : forall M g t, QReach M g -> In t (qthr g) ->
+    qfeeder t = false -> qfin t = false -> (qcid t = 0%nat \/ qcid t = 3%nat) ->
+    (qpc t = 0%nat \/ qpc t = 3%nat \/ qpc t = 6%nat) -> r2 (qrg t) = a2_of (qcur t).
+Proof. intros M g t HR. apply (put_appends_its_argument M). apply qreach_inv; auto. Qed.
+
+(* non-vacuity: maxsize 1, two producers and a consumer; a reachable state with one message
+   received, one in the pipe... *)
+Definition qex_scripts : list (list qcall) :=
+  [[(0%nat, 0, 1, 11)]; [(0%nat, 0, 1, 12)]; [(1%nat, 0, 1, 0)]].
+Definition qex_sched : list (nat * bool) :=
+  [(0%nat, true); (0%nat, true); (0%nat, true); (1%nat, true); (1%nat, true); (1%nat, true);
+   (1%nat, true); (4%nat, true); (4%nat, true)].
+Definition qex_state : qsys := fst (fst (qrun P_queue.code (gen_qinit 1 qex_scripts) qex_sched)).
+
+Lemma qex_witness :
+  QReach 1 qex_state /\ qv 0 qex_state = 0 /\ getlog qex_state = [11] /\ sendlog qex_state = [11] /\
+  sumz qt_tr (qthr qex_state) = 1 /\ pipe qex_state = [].
+Proof.
+  split.
+  - exists qex_scripts, qex_sched.
+    destruct (qrun P_queue.code (gen_qinit 1 qex_scripts) qex_sched) as [[g es] ok] eqn:E.
+    exists es, ok. split; [lia|]. split; [|split].
+    + repeat constructor; unfold okq; cbn; lia.
+    + vm_compute. repeat split.
+    + unfold qex_state. rewrite E. reflexivity.
+  - vm_compute. repeat split.
+Qed.
